@@ -58,9 +58,9 @@ def protocol(rep, quick):
     # sequences that end with a load observe something; the others only matter as prefixes
     ends_load = [s for s in sp["seq2"] + s3 if s[-1] in ("undill_auto", "undill_noauto", "prepare")]
     seqs = [s for s in sp["seq1"] if s[-1].startswith("undill")] + [s for s in ends_load if len(s) == 2]
-    seqs += [s for s in ends_load if len(s) == 3][:(24 if quick else 10000)]
-    seqs += s5[:(10 if quick else 300)]
-    seqs += [["trunc_funcs", "undill_noauto"], ["edit_iter", "trunc_lists", "undill_auto"]] + (trunc_all[:60] if not quick else [])
+    seqs += [s for s in ends_load if len(s) == 3][:(24 if quick else 360)]
+    seqs += s5[:(10 if quick else 150)]
+    seqs += [["trunc_funcs", "undill_noauto"], ["edit_iter", "trunc_lists", "undill_auto"]] + (trunc_all[:24] if not quick else [])
     # a load after every step of a long history (every prefix observed)
     seqs += [["edit_e", "undill_noauto", "undill_auto", "edit_iter", "undill_noauto", "undill_auto", "edit_svc", "undill_auto",
               "edit_v", "undill_noauto", "prepare", "undill_noauto", "corrupt", "undill_auto", "prepare", "undill_auto",
@@ -265,9 +265,9 @@ def run(tier):
     rep.rule = ("equation level: every declared residual / initialiser / iterative initialiser / service string of every shipped "
                 "model x lattice points (TLC-enumerated levels, 4 devices x rounds); non-trivial = item with at least one defined "
                 "point.  Protocol level: operation sequences over {edit equation / initialiser / iterative initialiser / service, prepare, System() with "
-                "and without automatic regeneration, corrupt, delete}: all of length <= 2, %s of length 3, a residue class of "
+                "and without automatic regeneration, corrupt, delete, writer killed mid-file}: all of length <= 2, %s of length 3, a residue class of "
                 "length 5, one 20-step history; non-trivial = contains an edit, corruption or deletion"
-                % ("a seeded sample" if quick else "all"))
+                % ("a seeded sample of 24" if quick else "360"))
     return rep.finish()
 
 
